@@ -1473,6 +1473,13 @@ impl Zeroconf {
                     HostnameResolutionEvent::SearchStopped(hostname.to_owned()),
                 );
                 self.hostname_resolvers.remove(&hostname);
+
+                // The search is over: drop its pending retransmission, if any, so that it
+                // does not run (and re-schedule itself) after `SearchStopped`.
+                self.retransmissions.retain(|rerun| match &rerun.command {
+                    Command::ResolveHostname(h, ..) => h.to_lowercase() != hostname,
+                    _ => true,
+                });
             }
 
             // process commands from the command channel
